@@ -23,7 +23,7 @@ var histOps = []histOp{
 	{"ForEachVariants", opForEachVariants}, {"Set", opSet}, {"Unset", opUnset}, {"Merge", opMerge}, {"Pluck", opPluck},
 	{"KeysValues", opKeysValues}, {"ObjMap", opObjMap}, {"Clone", opClone}, {"SetTF", opSetTF}, {"UnsetTF", opUnsetTF},
 	{"GetTF", opGetTF}, {"Export", opExport}, {"MutateNative", opMutateNative}, {"Import", opImport}, {"Burst", opBurst},
-	{"TimePasses", opTimePasses},
+	{"TimePasses", opTimePasses}, {"Summaries", opSummaries},
 }
 
 // vocab: the smallest operation mix that drives each property (DESIGN §2 "Attribution").
@@ -33,13 +33,13 @@ var vocab = map[string]map[string]int{
 		"Import": 2, "Export": 1},
 	"C06": {"Burst": 2, "NewObject": 6, "NewList": 2, "Set": 12, "Unset": 6, "Clear": 1, "Merge": 5, "Pluck": 4, "KeysValues": 5, "Get": 6,
 		"TypeOf": 2, "Search": 4, "Export": 2, "Import": 2, "Add": 2},
-	"C08": {"Burst": 2, "NewDerived": 1, "NewListOf": 1, "Concat": 2, "SubList": 2, "Merge": 1, "Pluck": 1, "KeysValues": 1, "MapFilter": 1, "Import": 1, "NewList": 4, "NewObject": 4, "NewHomogeneous": 1, "Clone": 8, "Add": 5, "Insert": 3, "Replace": 4, "Delete": 3, "Pop": 3,
+	"C08": {"PureCalls": 2, "Search": 2, "Export": 1, "Get": 1, "Burst": 2, "NewDerived": 1, "NewListOf": 1, "Concat": 2, "SubList": 2, "Merge": 1, "Pluck": 1, "KeysValues": 1, "MapFilter": 1, "Import": 1, "NewList": 4, "NewObject": 4, "NewHomogeneous": 1, "Clone": 8, "Add": 5, "Insert": 3, "Replace": 4, "Delete": 3, "Pop": 3,
 		"Clear": 1, "Reverse": 1, "Sort": 1, "Set": 6, "Unset": 3, "SetTF": 4, "UnsetTF": 3},
 	"C09": {"Burst": 2, "NewList": 4, "NewHomogeneous": 1, "NewObject": 3, "Add": 8, "Pop": 5, "Delete": 3, "Insert": 3, "Replace": 3, "Clear": 1,
 		"Sort": 1, "Reverse": 2, "Set": 5, "Unset": 3, "SubList": 5, "Concat": 7, "MapFilter": 7, "ObjMap": 4, "Merge": 4, "Pluck": 3,
 		"KeysValues": 4, "Export": 5, "MutateNative": 4, "PureCalls": 3, "Search": 2},
 	"C11": {"Burst": 2, "NewDerived": 1, "NewListOf": 2, "Concat": 1, "SubList": 1, "Clone": 1, "NewList": 3, "NewObject": 3, "SetTF": 14, "UnsetTF": 7, "GetTF": 3, "Add": 3, "Set": 3, "Pop": 1, "Unset": 1},
-	"C13": {"Burst": 2, "NewDerived": 1, "NewListOf": 1, "NewList": 3, "NewObject": 3, "Import": 7, "Export": 8, "MutateNative": 8, "Add": 5, "Replace": 4, "Pop": 2, "Delete": 2,
+	"C13": {"SubList": 1, "Concat": 1, "Clone": 1, "Merge": 1, "MapFilter": 1, "KeysValues": 1, "Pluck": 1, "Burst": 2, "NewDerived": 1, "NewListOf": 1, "NewList": 3, "NewObject": 3, "Import": 7, "Export": 8, "MutateNative": 8, "Add": 5, "Replace": 4, "Pop": 2, "Delete": 2,
 		"Set": 5, "Unset": 3, "Clear": 1, "Sort": 1, "Reverse": 1, "Insert": 2, "NewHomogeneous": 1},
 	"C19": {"Burst": 2, "NewListOf": 2, "NewDerived": 6, "NewList": 2, "NewObject": 2, "Add": 6, "Insert": 4, "Replace": 4, "Delete": 3, "Pop": 3, "Clear": 1,
 		"Sort": 1, "Reverse": 3, "Set": 6, "Unset": 3, "ForEachVariants": 6, "SetTF": 4, "UnsetTF": 3, "Get": 6, "GetTF": 4,
@@ -68,6 +68,9 @@ func runHist(ch *simrt.Chooser, opt Options) RunResult {
 	}
 	if _, ok := weights["TimePasses"]; !ok {
 		weights["TimePasses"] = 1
+	}
+	if _, ok := weights["Summaries"]; !ok {
+		weights["Summaries"] = 2
 	}
 	if _, ok := weights["Sandwich"]; !ok {
 		weights["Sandwich"] = 4
